@@ -334,6 +334,33 @@ func (m *vfModel) observeLevel(ctx *vfReqCtx, in *vfIntent, resp *vfResp) {
 	}
 	isLogin := strings.HasPrefix(ctx.req.Path, "/api/v0/login")
 	info := &vfCookieInfo{Subject: sub, Exp: exp, AuthAt: iat, Kind: kind, Carried: level}
+	if strings.HasPrefix(ctx.req.Path, "/auth/oauth2/callback") {
+		// a new session whose only factor is the provider's word - and only for the user the provider named
+		m.lineages++
+		info.Lineage = m.lineages
+		allowed := 0
+		vouched := ""
+		for _, c := range claims {
+			if c.Factor == AuthTypeFederated {
+				vouched = c.User
+				if m.norm(c.User) == sub {
+					allowed = AuthTypeFederated
+				}
+			}
+		}
+		if extra := level &^ allowed; extra != 0 {
+			cls := "level-not-proven"
+			if vouched != "" && m.norm(vouched) != sub {
+				cls = "level-for-other-user"
+			}
+			w.violate("C05", cls, cls+":federated:"+vfLevelString(extra),
+				fmt.Sprintf("federated login produced a session for %q with level %s; the provider vouched for %q", sub, vfLevelString(level), vouched))
+		}
+		info.Proven = level & allowed
+		m.cookies[newVal] = info
+		w.probe("federated-session-created")
+		return
+	}
 	if isLogin {
 		m.lineages++
 		info.Lineage = m.lineages
